@@ -7,6 +7,8 @@ BIG = 1000000
 
 
 def eligible(case):
+    if case['t'][1] > (100 if case['meas'] == 'COSINE' else 1000):
+        return False                  # the transcribed arithmetic of Filters.tla uses 32-bit products
     if case.get('n_jobs', 1) != 1 and case.get('backend', 'threading') != 'threading':
         return False
     if case['kind'] == 'join':
